@@ -70,3 +70,15 @@ contract("uxarray.grid.coordinates._xyz_to_lonlat_deg", props=["C04", "C01"],
                   "-90 <= result[1] and result[1] <= 90",
                   f"implies(abs(z) <= {_TOL} * {_D}, " + _RTD.format(d=_D) + ")",
                   f"implies(abs(z) > {_TOL} * {_D}, result[0] == 0 and result[1] == ite(z > 0, 90, -90))"])
+
+# ---- the same conversions called with ARRAYS (as the populate functions do): the caller's buffers are never written --------------------
+# (the value contract above is proved for a generic element; numpy's in-place operators on array arguments would write through to
+# the grid's stored coordinates - an ownership obligation, independent of the values)
+for _q in ("_xyz_to_lonlat_rad", "_xyz_to_lonlat_deg", "_normalize_xyz", "_lonlat_rad_to_xyz"):
+    _ps = ({"lon": "arr(real, n, owner='caller')", "lat": "arr(real, n, owner='caller')"} if _q == "_lonlat_rad_to_xyz" else
+           {"x": "arr(real, n, owner='caller')", "y": "arr(real, n, owner='caller')", "z": "arr(real, n, owner='caller')"})
+    contract("uxarray.grid.coordinates." + _q, variant="arrays", props=["C04", "C08", "C19"],
+             sizes=["n"], params=_ps, returns="opaque",
+             ensures=[f"forall(0, n, lambda i: eqr({a}[i], old({a})[i]))" for a in _ps],
+             options={"frames": True, "abstract": True,
+                      "callee_variants": {"uxarray.grid.coordinates." + c: "arrays" for c in ("_normalize_xyz", "_xyz_to_lonlat_rad")}})
